@@ -13,6 +13,7 @@ mod runner;
 mod pgen;
 mod c15;
 mod c02;
+mod c14;
 
 use std::path::PathBuf;
 
@@ -74,6 +75,7 @@ fn main() {
         "c01" => c01::run(&args),
         "c15" => c15::run(&args),
         "c02" => c02::run(&args),
+        "c14" => c14::run(&args),
         "c06" => c06::run(&args),
         "c16" => c16::run(&args),
         "c10" => c10::run(&args),
